@@ -536,7 +536,7 @@ class C11(RenderProp):
     n_quick = 3000
     n_thorough = 45000
     required_theorems = ["C11_member_present", "C11_member_of_nil", "C11_member_of_undefined", "C11_index_out_of_range", "C11_missing_key", "C11_absent_prints_nothing", "C11_absent_propagates",
-                         "C11_undefined_propagates", "C11_absent_path_prints_nothing", "C11_present_path", "C11_present_path_prints_leaf", "C11_convert_skeleton"]
+                         "C11_undefined_propagates", "C11_absent_path_prints_nothing", "C11_present_path", "C11_present_path_prints_leaf", "C11_path_to_nil_prints_nothing", "C11_convert_skeleton"]
     rule = ("random Go data trees (dynamically shaped struct types via reflect.StructOf, a compiled struct type with methods / unexported field / acronym fields, "
             "string-keyed maps, typed maps and slices, pointers incl. nil, interfaces incl. nil, strings, int/int64/uint8/float64/bool; depth <= 3 quick / 5 thorough) x random "
             "paths (lower-camel fields, .key and ['key'], [index], niladic methods), one third deliberately stepping off the data (missing field/key, out-of-range index, nil "
